@@ -51,7 +51,7 @@ def _int(ctx):
 
 @harness("C10.roundtrip")
 def roundtrip(ctx, p):
-    net, nl, el, c = _build(ctx, p)
+    net, nl, el, c = _build(ctx, p, attrs=p.get("attrs", True))
     how = p["how"]
     ctx.info["op"] = how
     src = nets.snap(net)
@@ -136,7 +136,7 @@ def _multiset(A, B):
 @harness("C10.cross")
 def cross(ctx, p):
     """Building a network of one class from a network of another."""
-    net, nl, el, c = _build(ctx, p)
+    net, nl, el, c = _build(ctx, p, attrs=p.get("attrs", True))
     how = p["how"]
     ctx.info["op"] = how
     src = nets.snap(net)
@@ -218,10 +218,13 @@ def spec(tier, seed):
         for s in sh[cls]:
             for how in hows:
                 units.append(("C10.roundtrip", {"cls": cls, "shape": s, "how": how}))
+                if how in ("hif_dict", "hypergraph_dict"):
+                    units.append(("C10.roundtrip", {"cls": cls, "shape": s, "how": how, "attrs": False}))
     for cls, hows in (("H", ["H->H", "H->S"]), ("D", ["D->H", "D->D"]), ("S", ["S->H", "S->S"])):
         for s in sh[cls]:
             for how in hows:
                 units.append(("C10.cross", {"cls": cls, "shape": s, "how": how}))
+                units.append(("C10.cross", {"cls": cls, "shape": s, "how": how, "attrs": False}))
     for s in bip:
         nv = s[0] + s[1]
         nlinks = sum(len(e) for e in s[2])
